@@ -14,7 +14,8 @@ Ops (one case = one run of the state machine `Sentinel.System.step`):
 * `stat`  => the inbound aggregates the slot reads
 -/
 namespace Sentinel.Drv.C07
-open Sentinel.LA Sentinel.System Sentinel.Drv
+open Sentinel.System Sentinel.Drv
+open Sentinel.LA (refW cbs vSum)
 
 /-- the float expressions exactly as the Go code evaluates them (left to right, binary64) -/
 def fA : Arith Float :=
